@@ -117,11 +117,32 @@ def registry_state():
 PINT = [False]
 
 
+def library_state():
+    """Module-level state of the library itself: for every global of every hszinc module its identity, and for the
+    containers among them (tables, memos, registries) their size and key set."""
+    out = {}
+    for name, mod in list(sys.modules.items()):
+        if mod is None or not (name == 'hszinc' or name.startswith('hszinc.')):
+            continue
+        for k, v in list(vars(mod).items()):
+            if k.startswith('__') or k.startswith('_gen_hsfilter_') or k == '_id_function':
+                continue
+            if isinstance(v, (dict, set, frozenset, list)):
+                try:
+                    digest = hash(frozenset(v if not isinstance(v, dict) else v.keys())) if len(v) < 5000 else 0
+                except TypeError:
+                    digest = 0
+                out[name + '.' + k] = (id(v), len(v), digest)
+            else:
+                out[name + '.' + k] = id(v)
+    return out
+
+
 def state_snapshot(gf):
     mods = set(sys.modules.keys())
     b = dict((k, id(v)) for k, v in builtins.__dict__.items())
     g = dict((k, id(v)) for k, v in gf.__dict__.items() if not k.startswith('_gen_hsfilter_') and k != '_id_function')
-    return mods, b, g, (registry_state() if PINT[0] else ())
+    return mods, b, g, (registry_state() if PINT[0] else ()), library_state()
 
 
 def check_source(src):
@@ -329,6 +350,12 @@ def evaluate(ctx, mon, hszinc, gf, pp, g, text, pos, payload, grid_snap):
     if after[2] != before[2]:
         diff = sorted(set(k for k, _ in (set(after[2].items()) ^ set(before[2].items()))))
         viol('state:filter-module-globals-changed', 'filter module globals changed: %r' % (diff[:5],))
+    if after[4] != before[4]:
+        diff = sorted(k for k in set(after[4]) | set(before[4]) if after[4].get(k) != before[4].get(k))
+        diff = [k for k in diff if not k.startswith('hszinc.grid_filter._gen_hsfilter_')]
+        if diff:
+            viol('state:library-globals-changed', 'module-level state of the library changed: %r' % (
+                [(k, before[4].get(k), after[4].get(k)) for k in diff[:4]],))
     if after[3] != before[3]:
         viol('state:unit-registry-changed', 'the shared unit registry (hszinc.ureg) changed: %r -> %r' % (
             [x[:2] for x in before[3]], [x[:2] for x in after[3]]), ['pint-mode'])
